@@ -1,47 +1,77 @@
 #!/usr/bin/env python3
 """tools/seed_test.py <seed-dir> [Cnn ...]
-Apply seeded/<id>/patch.diff to a scratch worktree of /repo, confirm the demo (exit 0 on the
-clean tree, non-zero with the change), run ./check for the property (and any extra properties
-given) against that tree with VERIF_REPO, and record the outcome in <seed-dir>/result.json.
-The worktree is removed afterwards.  (Equivalent to `git -C /repo apply`; a worktree is used so
-that /repo itself is never dirty while other checks run.)"""
+Confirm a seeded change and run our checks against it, in isolation:
+  * scratch git worktree of /repo (removed afterwards); demo.py must exit 0 on the clean
+    tree and non-zero once patch.diff is applied and _tskit rebuilt;
+  * ./check <Cnn> quick is run from a private copy of /verif (so that Gen/Generated.v,
+    the .vo files and the scratch build directory are not shared with concurrent runs)
+    with VERIF_REPO pointing at the patched worktree — equivalent to
+    `git -C /repo apply patch.diff; ./check ...; git -C /repo checkout -- .`.
+Outcome is recorded in <seed-dir>/result.json."""
 import json, os, subprocess, sys, time, shutil
 HERE = os.path.dirname(os.path.dirname(os.path.abspath(__file__)))
 sd = os.path.abspath(sys.argv[1])
 meta = json.load(open(os.path.join(sd, "meta.json")))
 props = sys.argv[2:] or [meta["property"]]
-wt = "/tmp/seedtest-" + os.path.basename(sd)
+tag = os.path.basename(sd)
+wt = "/tmp/seedtest-" + tag
+priv = "/var/tmp/seedrun-" + tag
 subprocess.run(["git", "-C", "/repo", "worktree", "remove", "--force", wt], stderr=subprocess.DEVNULL)
-subprocess.run(["git", "-C", "/repo", "worktree", "add", "--detach", wt, "HEAD"], check=True, stdout=subprocess.DEVNULL)
-res = {"property": meta["property"], "time": time.strftime("%Y-%m-%d %H:%M")}
+shutil.rmtree(wt, ignore_errors=True)
+shutil.rmtree(priv, ignore_errors=True)
+for _ in range(20):
+    r = subprocess.run(["git", "-C", "/repo", "worktree", "add", "--detach", wt, "HEAD"], stdout=subprocess.DEVNULL, stderr=subprocess.PIPE, text=True)
+    if r.returncode == 0:
+        break
+    time.sleep(3)
+else:
+    sys.exit("worktree add failed: " + r.stderr)
+res = {"property": meta["property"], "time": time.strftime("%Y-%m-%d %H:%M"), "repo_head": subprocess.run(["git", "-C", "/repo", "rev-parse", "--short", "HEAD"], stdout=subprocess.PIPE, text=True).stdout.strip()}
 try:
     def build():
-        r = subprocess.run("cd %s/python && /venv/bin/python setup.py build_ext --inplace -j8 >/dev/null 2>&1" % wt, shell=True)
+        r = subprocess.run("cd %s/python && /venv/bin/python setup.py build_ext --inplace -j4 >/dev/null 2>&1" % wt, shell=True)
         return r.returncode
     demo = os.path.join(sd, "demo.py")
-    if os.path.exists(demo) and os.environ.get("SEED_SKIP_DEMO") != "1":
+    skip_demo = os.environ.get("SEED_SKIP_DEMO") == "1" or not os.path.exists(demo)
+    if not skip_demo:
         build()
-        r0 = subprocess.run(["/venv/bin/python", demo], cwd=wt + "/python", stdout=subprocess.PIPE, stderr=subprocess.STDOUT, text=True, timeout=1800)
+        r0 = subprocess.run(["/venv/bin/python", demo], cwd=wt + "/python", stdout=subprocess.PIPE, stderr=subprocess.STDOUT, text=True, timeout=3600)
         res["demo_clean_rc"] = r0.returncode
-    subprocess.run(["git", "apply", os.path.join(sd, "patch.diff")], cwd=wt, check=True)
-    if os.path.exists(demo) and os.environ.get("SEED_SKIP_DEMO") != "1":
+    r = subprocess.run(["git", "apply", os.path.join(sd, "patch.diff")], cwd=wt, stderr=subprocess.PIPE, text=True)
+    res["patch_applies"] = r.returncode == 0
+    if r.returncode != 0:
+        res["patch_error"] = r.stderr[-500:]
+        raise SystemExit("patch does not apply")
+    if not skip_demo:
         res["build_rc"] = build()
-        r1 = subprocess.run(["/venv/bin/python", demo], cwd=wt + "/python", stdout=subprocess.PIPE, stderr=subprocess.STDOUT, text=True, timeout=1800)
+        r1 = subprocess.run(["/venv/bin/python", demo], cwd=wt + "/python", stdout=subprocess.PIPE, stderr=subprocess.STDOUT, text=True, timeout=3600)
         res["demo_changed_rc"] = r1.returncode
         res["demo_changed_tail"] = r1.stdout[-600:]
-    # remove in-place build products so that the check's staging copies sources only
     subprocess.run("cd %s/python && rm -rf build *.so" % wt, shell=True)
+    # private copy of /verif (sources + compiled .vo so that nothing is rebuilt needlessly)
+    subprocess.run(["rsync", "-a", "--exclude", ".git", "--exclude", "replays", "--exclude", "seeded", HERE + "/", priv + "/verif/"], check=True)
     res["checks"] = {}
     for p in props:
-        env = dict(os.environ, VERIF_REPO=wt)
+        env = dict(os.environ, VERIF_REPO=wt, VERIF_SCRATCH=priv + "/scratch")
         t0 = time.time()
-        r = subprocess.run(["./check", p, os.environ.get("SEED_TIER", "quick")], cwd=HERE, env=env, stdout=subprocess.PIPE, stderr=subprocess.STDOUT, text=True)
-        lines = [l for l in r.stdout.split("\n") if l.startswith(("VIOLATION", "OK ", "KNOWN-FINDING", "check:"))]
-        res["checks"][p] = {"rc": r.returncode, "lines": lines[:6], "wall_s": round(time.time() - t0)}
-        print(p, "rc=%d" % r.returncode, lines[:3])
-    res["caught"] = any(c["rc"] == 1 for c in res["checks"].values())
+        r = subprocess.run(["./check", p, os.environ.get("SEED_TIER", "quick")], cwd=priv + "/verif", env=env, stdout=subprocess.PIPE, stderr=subprocess.STDOUT, text=True)
+        lines = [l[:300] for l in r.stdout.split("\n") if l.startswith(("VIOLATION", "OK ", "KNOWN-FINDING", "check:"))]
+        viol = [l for l in lines if l.startswith("VIOLATION")]
+        replay = None
+        if viol:
+            rp = viol[0].split("replay=")[1].split()[0]
+            try:
+                replay = json.load(open(os.path.join(priv, "verif", rp)))
+                replay = json.loads(json.dumps(replay)[:4000]) if len(json.dumps(replay)) < 4000 else {"truncated": json.dumps(replay)[:1500]}
+            except Exception as e:
+                replay = {"unreadable": str(e)}
+        res["checks"][p] = {"rc": r.returncode, "lines": lines[:8], "wall_s": round(time.time() - t0), "first_replay": replay}
+        print(p, "rc=%d" % r.returncode, [l[:160] for l in viol[:3]] or lines[:2])
+    res["caught"] = any(c["rc"] == 1 and any(l.startswith("VIOLATION") for l in c["lines"]) for c in res["checks"].values())
+    res["caught_with_failing_input"] = any(any(l.startswith("VIOLATION") and "no-failing-input-found" not in l for l in c["lines"]) for c in res["checks"].values())
 finally:
-    subprocess.run(["git", "-C", "/repo", "worktree", "remove", "--force", wt])
+    subprocess.run(["git", "-C", "/repo", "worktree", "remove", "--force", wt], stderr=subprocess.DEVNULL)
     shutil.rmtree(wt, ignore_errors=True)
-json.dump(res, open(os.path.join(sd, "result.json"), "w"), indent=1)
+    shutil.rmtree(priv, ignore_errors=True)
+    json.dump(res, open(os.path.join(sd, "result.json"), "w"), indent=1)
 print("caught" if res.get("caught") else "MISSED", sd)
